@@ -124,19 +124,19 @@ fn rotate_body(h: usize) {
     std::mem::forget(provider);
 }
 
-crate::ks_harness! {
+crate::ks_harness_spec! {
     #[kani::unwind(66)]
     fn c26_rotate_h0() { rotate_body(0) }
 }
-crate::ks_harness! {
+crate::ks_harness_spec! {
     #[kani::unwind(66)]
     fn c26_rotate_h1() { rotate_body(1) }
 }
-crate::ks_harness! {
+crate::ks_harness_spec! {
     #[kani::unwind(66)]
     fn c26_rotate_h2() { rotate_body(2) }
 }
-crate::ks_harness! {
+crate::ks_harness_spec! {
     #[kani::unwind(66)]
     fn c26_rotate_h3() { rotate_body(3) }
 }
@@ -269,33 +269,65 @@ crate::ks_harness! {
     }
 }
 
+// ------------------------------------------------------------------ key-from-bytes specification
+/// `AesSivCmac256::try_from(bytes)` == `siv256_try_from_spec(bytes)` for every length <= 40.
 crate::ks_harness! {
     #[kani::unwind(66)]
-    fn probe_m1() {
-        symbolic_aead(MODE_EXPECT_OK);
-        let kk: [u8; 64] = kani::any();
-        let off: u32 = kani::any();
-        let s2c: [u8; 32] = kani::any();
-        let c2s: [u8; 32] = kani::any();
-        let ks = kh::keyset_from_parts(vec![key512(kk)], off, 0);
-        let c = cookie256(s2c, c2s);
-        let enc = kh::keyset_encode_cookie(&ks, &c);
-        let dec = kh::keyset_decode_cookie(&ks, &enc);
-        let ok = dec.is_ok();
-        std::mem::forget(dec);
-        assert!(ok);
-        std::mem::forget(c);
-        std::mem::forget(ks);
+    fn c26_key_try_from_256() {
+        let buf: [u8; 40] = kani::any();
+        let n: usize = kani::any();
+        kani::assume(n <= 40);
+        let real = AesSivCmac256::try_from(&buf[..n]);
+        match real {
+            Ok(k) => {
+                let kb = k.key_bytes();
+                let same = (kb.len() == 32) & eq_prefix(kb, &buf, 32);
+                std::mem::forget(k);
+                assert!(n == 32, "a key is produced only from exactly 32 bytes");
+                assert!(same, "the key bytes are the input bytes");
+                kani::cover!(buf[0] != buf[31], "key accepted");
+            }
+            Err(_) => {
+                assert!(n != 32, "32 bytes are always accepted");
+                kani::cover!(n == 31, "one byte short rejected");
+                kani::cover!(n == 33, "one byte long rejected");
+            }
+        }
     }
 }
 
+/// `AesSivCmac512::try_from(bytes)` == `siv512_try_from_spec(bytes)` for every slice length <= 72
+/// and for the `[u8; 64]` instantiation used by `KeySetProvider::load`.
 crate::ks_harness! {
-    #[kani::unwind(66)]
-    fn probe_m2() {
-        let s2c: [u8; 32] = kani::any();
-        let k = AesSivCmac256::try_from(&s2c[..]);
-        let ok = k.is_ok();
-        std::mem::forget(k);
-        assert!(ok);
+    #[kani::unwind(74)]
+    fn c26_key_try_from_512() {
+        let buf: [u8; 72] = kani::any();
+        let arr: [u8; 64] = kani::any();
+        let n: usize = kani::any();
+        kani::assume(n <= 72);
+        match AesSivCmac512::try_from(&buf[..n]) {
+            Ok(k) => {
+                let kb = k.key_bytes();
+                let same = (kb.len() == 64) & eq_prefix(kb, &buf, 64);
+                std::mem::forget(k);
+                assert!(n == 64, "a key is produced only from exactly 64 bytes");
+                assert!(same, "the key bytes are the input bytes");
+                kani::cover!(buf[0] != buf[63], "key accepted");
+            }
+            Err(_) => {
+                assert!(n != 64, "64 bytes are always accepted");
+                kani::cover!(n == 63, "one byte short rejected");
+                kani::cover!(n == 65, "one byte long rejected");
+            }
+        }
+        match AesSivCmac512::try_from(arr) {
+            Ok(k) => {
+                let kb = k.key_bytes();
+                let same = (kb.len() == 64) & eq_prefix(kb, &arr, 64);
+                std::mem::forget(k);
+                assert!(same, "the key bytes are the array");
+            }
+            Err(_) => assert!(false, "a 64-byte array is always accepted"),
+        }
     }
 }
